@@ -50,6 +50,10 @@ def build_inputs(case: Dict[str, Any]):
         return None
     cfg = case["cfg"]
     rules = [r for r in specified_rules if r is not NoUnusedFragmentsRule]
+    # authored documents may carry the codegen-only @mixin directive: validate them against a copy of the schema that knows it
+    schema_val = schema_ref
+    if case.get("mixins"):
+        schema_val = build_schema(sdl + "\ndirective @mixin(from: String, import: String) repeatable on FIELD | FRAGMENT_DEFINITION\n")
     for attempt in range(8):
         frs, ops, names, ofeats = generate_document(
             schema_ref, s * 31 + attempt, dirty, n_ops=case.get("n_ops", 3), max_depth=case.get("max_depth", 3),
@@ -57,7 +61,7 @@ def build_inputs(case: Dict[str, Any]):
             mixins=case.get("mixins"))
         text = "\n\n".join(frs + ops)
         try:
-            if not validate(schema_ref, parse(text), rules):
+            if not validate(schema_val, parse(text), rules):
                 return sdl, frs, ops, names, set(sfeats) | set(ofeats), schema_ref
         except Exception:  # noqa: BLE001
             continue
@@ -431,7 +435,7 @@ def argument_values(opnode, schema_ref, pkg, cfg, rng, pmap) -> Optional[Dict[st
 
 
 def run_shared(prop: str, tier: str, seed: int, n_cases: int, rule: str, floors: Dict[str, int], dirty_sets: Optional[List[List[str]]] = None,
-               level: str = "exploration", extra_case_kw: Optional[Dict[str, Any]] = None, timeout_s: float = 180.0) -> int:
+               level: str = "exploration", extra_case_kw: Optional[Dict[str, Any]] = None, timeout_s: float = 180.0, case_hook=None) -> int:
     r = core.Run(prop, tier, seed, level=level)
     r.rule = rule
     r.assumptions = ["graphql-core (parser, validator, executor, coercion) is the model of a spec-conformant server",
@@ -442,7 +446,10 @@ def run_shared(prop: str, tier: str, seed: int, n_cases: int, rule: str, floors:
         kw = dict(extra_case_kw or {})
         kw["props"] = [prop]
         kw["tier"] = tier
-        cases.append(make_case(seed, i, dirty=(dirty_sets[i % len(dirty_sets)] if dirty_sets else []), **kw))
+        c = make_case(seed, i, dirty=(dirty_sets[i % len(dirty_sets)] if dirty_sets else []), **kw)
+        if case_hook:
+            case_hook(c, i)
+        cases.append(c)
 
     def on_result(case, res):
         r.add(case, res)
@@ -465,3 +472,14 @@ def replay_shared(prop: str, data) -> int:
         print("--- schema ---\n" + data["case"]["_sdl"][:3000])
         print("--- queries ---\n" + data["case"]["_queries"][:3000])
     return 1 if res.violations else 0
+
+
+def with_mixins(case: Dict[str, Any], i: int) -> None:
+    """case_hook: every 4th case ships a mixins module and uses @mixin on fields and on fragment definitions."""
+    if i % 4 != 1:
+        return
+    case["mixins"] = [(".mixins_mod", "MixinA"), (".mixins_mod", "MixinB")]
+    case["extra_files"] = {"mixins_mod.py": "class MixinA:\n    pass\n\n\nclass MixinB:\n    pass\n"}
+    case["cfg"] = dict(case["cfg"])
+    case["cfg"]["files_to_include"] = ["mixins_mod.py"]
+    case["dirty"] = sorted(set(case.get("dirty", [])) | {"mixin.on_fragment_def"})
